@@ -78,6 +78,8 @@ trait Q: Clone {
     fn from_it(v: Vec<(It, i32)>, lo: usize, hi: Option<usize>) -> Self;
     fn roundtrip(&self) -> Result<Self, String>;
     fn from_json(s: &str) -> Result<Self, String>;
+    fn de_in_place(&mut self, s: &str) -> Result<(), String>;
+    fn to_json(&self) -> String;
     fn same(&self, o: &Self) -> bool;
     fn convert(self) -> Self;
     fn capacity_ops(&mut self, n: usize) -> Result<(), String>;
@@ -88,6 +90,8 @@ trait Q: Clone {
     /// iter_mut consumed from both ends following `bits`: addresses handed out, and what came after the first None
     fn iter_mut_walk(&mut self, bits: u64, calls: usize) -> Result<(), String>;
     fn retain_all(&mut self, mutable: bool);
+    /// write `tag` through peek_mut / peek_max_mut (and peek_min_mut): ids addressed, next to the ids peek / peek_max (peek_min) report
+    fn peek_mut_tags(&mut self, tag: u32) -> Vec<(Option<u16>, Option<u16>)>;
     fn clone_from_q(&mut self, o: &Self);
     fn append_roomy(&mut self, v: Vec<(It, i32)>, room: usize) -> (usize, usize, usize);
     /// comparison counts of single-element operations and bulk constructions on a queue of n elements
@@ -154,6 +158,8 @@ macro_rules! common { ($T:ident) => {
         cost!("peek", 4, q.extremes());
         Ok(()) }
     fn from_json(s: &str) -> Result<Self, String> { serde_json::from_str(s).map_err(|e| e.to_string()) }
+    fn to_json(&self) -> String { serde_json::to_string(self).unwrap() }
+    fn de_in_place(&mut self, s: &str) -> Result<(), String> { let mut de = serde_json::Deserializer::from_str(s); serde::Deserialize::deserialize_in_place(&mut de, self).map_err(|e| e.to_string()) }
     fn adaptors(&mut self, k: usize) -> Result<(), String> {
         let all: Vec<(u16, i32)> = self.iter().map(|(i, p)| (i.id, p.0)).collect(); let n = all.len();
         let f = |x: Option<(&It, &Pr)>| x.map(|(i, p)| (i.id, p.0)); let g = |x: Option<(It, Pr)>| x.map(|(i, p)| (i.id, p.0));
@@ -215,10 +221,15 @@ impl Q for PriorityQueue<It, Pr> {
     fn pop_hi_if(&mut self, newp: i32, accept: bool) -> Option<(It, i32)> { self.pop_if(|_, p| { *p = Pr(newp); accept }).map(|(i, p)| (i, p.0)) }
     fn iter_mut_rewrite(&mut self, k: usize, d: i32, _b: bool) { for (_, p) in self.iter_mut().take(k) { *p += d; } }
     fn sorted_desc(self) -> Vec<It> { self.into_sorted_vec() }
+    fn peek_mut_tags(&mut self, tag: u32) -> Vec<(Option<u16>, Option<u16>)> {
+        let shown = self.peek().map(|(i, _)| i.id); let got = self.peek_mut().map(|(i, _)| { i.tag = tag; i.id }); vec![(got, shown)] }
     fn pop_hi_if_panic(&mut self) { self.pop_if(|_, p| { *p -= 900; panic!("user predicate") }); }
     fn iter_mut_walk(&mut self, bits: u64, calls: usize) -> Result<(), String> { let n = PriorityQueue::len(self); let mut it = self.iter_mut();
         let used = walk(n, bits, calls, |_back, skip| if skip > 0 { it.nth(skip) } else { it.next() }.map(|(_, p)| p as *mut Pr as usize))?;
-        hint_ok(n.saturating_sub(used), catch_unwind(AssertUnwindSafe(|| it.size_hint()))) }
+        hint_ok(n.saturating_sub(used), catch_unwind(AssertUnwindSafe(|| it.size_hint())))?;
+        // internal iteration (fold: count, for_each, sum ...) over what is left visits exactly that
+        let rest = it.count(); if rest != n.saturating_sub(used) { return Err(format!("iter_mut: count() of the rest gives {} with {} elements left (an element handed out twice?)", rest, n.saturating_sub(used))); }
+        Ok(()) }
     fn sorted_iter_lens(self, k: usize) -> Result<(), String> { let n = PriorityQueue::len(&self); let mut it = self.into_sorted_iter(); let mut left = n;
         for _ in 0..=k { let (lo, hi) = it.size_hint(); if lo > left || hi.map_or(false, |h| h < left) { return Err(format!("into_sorted_iter: size_hint {:?} with {} elements left", (lo, hi), left)); }
             if it.next().is_some() { left -= 1; } } Ok(()) }
@@ -235,10 +246,17 @@ impl Q for DoublePriorityQueue<It, Pr> {
         let mut it = self.iter_mut();
         for _ in 0..k { let x = if from_back { it.next_back() } else { it.next() }; if let Some((_, p)) = x { *p += d; } } }
     fn sorted_desc(self) -> Vec<It> { self.into_descending_sorted_vec() }
+    fn peek_mut_tags(&mut self, tag: u32) -> Vec<(Option<u16>, Option<u16>)> {
+        let shown = self.peek_max().map(|(i, _)| i.id); let got = self.peek_max_mut().map(|(i, _)| { i.tag = tag; i.id });
+        let shown2 = self.peek_min().map(|(i, _)| i.id); let got2 = self.peek_min_mut().map(|(i, _)| { i.tag = tag + 1; i.id });
+        vec![(got, shown), (got2, shown2)] }
     fn pop_hi_if_panic(&mut self) { self.pop_max_if(|_, p| { *p -= 900; panic!("user predicate") }); }
     fn iter_mut_walk(&mut self, bits: u64, calls: usize) -> Result<(), String> { let n = DoublePriorityQueue::len(self); let mut it = self.iter_mut();
         let used = walk(n, bits, calls, |back, skip| if skip > 0 { if back { it.nth_back(skip) } else { it.nth(skip) } } else if back { it.next_back() } else { it.next() }.map(|(_, p)| p as *mut Pr as usize))?;
-        hint_ok(n.saturating_sub(used), catch_unwind(AssertUnwindSafe(|| it.size_hint()))) }
+        hint_ok(n.saturating_sub(used), catch_unwind(AssertUnwindSafe(|| it.size_hint())))?;
+        // internal iteration (fold: count, for_each, sum ...) over what is left visits exactly that
+        let rest = it.count(); if rest != n.saturating_sub(used) { return Err(format!("iter_mut: count() of the rest gives {} with {} elements left (an element handed out twice?)", rest, n.saturating_sub(used))); }
+        Ok(()) }
     fn sorted_iter_lens(self, k: usize) -> Result<(), String> { let n = DoublePriorityQueue::len(&self); let mut it = self.into_sorted_iter(); let mut left = n;
         for j in 0..=k { if it.len() != left || it.size_hint() != (left, Some(left)) { return Err(format!("into_sorted_iter: len {} size_hint {:?} with {} elements left", it.len(), it.size_hint(), left)); }
             let x = if j % 2 == 0 { it.next() } else { it.next_back() }; if x.is_some() { left -= 1; } }
@@ -365,6 +383,11 @@ fn step<T: Q>(q: &mut T, m: &mut Model, r: &mut Rng, log: &mut Vec<String>) -> R
             for (i, p) in v { if !m.contains_key(&i.id) { m.insert(i.id, (i.tag, p)); } else if longer { let cur = q.get(i.id); if let Some(c) = cur { m.insert(i.id, c); } } } }
         20 => { if r.below(3) == 0 { log.push("clear".into()); q.clear(); m.clear(); } else { let k = r.below(5) as usize; let f = r.below(3) == 0; log.push(format!("drain take {} forget {}", k, f));
             let got = q.drain_k(k, f); for (i, p) in &got { ck!(m.get(&i.id) == Some(&(i.tag, *p)), "C16,C13", "drain yielded a pair that was not stored"); } if !f { ck!(got.len() == m.len(), "C16", "drain yielded {} of {}", got.len(), m.len()); } m.clear(); } }
+        21 if r.below(2) == 0 => { log.push(format!("peek_mut / peek_max_mut / peek_min_mut: tag = {}", tag));
+            let kind = if T::kind() == "PriorityQueue" { "C01" } else { "C02" };
+            for (k, (got, shown)) in q.peek_mut_tags(tag).into_iter().enumerate() {
+                ck!(got == shown, &format!("{},C12", kind), "peek_*_mut no. {} addresses item {:?}, the corresponding peek reports item {:?}", k, got, shown);
+                if let Some(g) = got { m.get_mut(&g).unwrap().0 = tag + k as u32; } else { ck!(m.is_empty(), kind, "peek_*_mut returns None on a non-empty queue"); } } }
         21 => { log.push(format!("get_mut({}).tag = {}", id, tag)); if q.set_tag(id, tag) { m.get_mut(&id).unwrap().0 = tag; } else { ck!(!m.contains_key(&id), "C03", "get_mut misses a stored item"); } }
         22 => { log.push("clone / eq / sorted / serde / convert".into());
             let c = q.clone(); ck!(c.same(q), "C14", "clone is not equal to its source");
@@ -405,6 +428,16 @@ fn step<T: Q>(q: &mut T, m: &mut Model, r: &mut Rng, log: &mut Vec<String>) -> R
                         ck!(hi == ps.iter().copied().max() && (T::kind() == "PriorityQueue" || lo == ps.iter().copied().min()), "C15", "deserializing {} gives a queue whose peeks {:?} are not its extremes", js, (lo, hi));
                         let mut d = d; let mut prev = i32::MAX; let mut cnt = 0; while let Some((_, p)) = d.pop_hi() { ck!(p <= prev, "C15", "deserializing {} gives a queue that pops out of order", js); prev = p; cnt += 1; }
                         ck!(cnt == ids.len(), "C15", "deserializing {} gives a queue that pops {} of {} elements", js, cnt, ids.len()); } } }
+            { // deserialize_in_place, also from an input that breaks off after some good pairs: whatever it leaves is a working queue
+                let good = q.to_json(); let cut = good.len() * (1 + r.below(3) as usize) / 4;
+                let mut bad = good[..good[..cut.max(1)].rfind(']').map(|i| i + 1).unwrap_or(1)].to_string(); bad.push_str(",[\"oops\"]]");
+                for (txt, what) in [(&good, "its own serialization"), (&bad, "an input that breaks off")] {
+                    let mut d = T::new(); for j in 0..r.below(9) as u16 { d.push(It { id: 300 + j, tag: 0, own: Box::new(0) }, (j % 5) as i32); }
+                    let res = match catch_unwind(AssertUnwindSafe(|| d.de_in_place(txt))) { Ok(x) => x, Err(_) => return Err(Fail { props: "C15,C04".into(), what: format!("deserialize_in_place from {} panicked", what) }) };
+                    if what.starts_with("its") { ck!(res.is_ok() && d.same(q), "C15", "deserialize_in_place from its own serialization: {:?}", res.err()); }
+                    let dm: Model = d.iter_pairs().iter().map(|x| (x.0, (x.1, x.2))).collect();
+                    let lab = if T::kind() == "PriorityQueue" { "C15,C01" } else { "C15,C02" };
+                    observe(&d, &dm).and_then(|_| drain_check(d, &dm, true)).map_err(|f| Fail { props: lab.into(), what: format!("after deserialize_in_place from {}: {}", what, f.what) })?; } }
             { // From<Vec> / FromIterator with repeated items: first resp. last priority per distinct item, a correctly ordered queue
                 let n = r.below(30) as usize; let mut v: Vec<(It, i32)> = vec![];
                 for _ in 0..n { let i = if !v.is_empty() && r.below(3) == 0 { v[r.below(v.len() as u64) as usize].0.id } else { r.below(40) as u16 }; v.push((It { id: i, tag: v.len() as u32, own: Box::new(0) }, r.below(9) as i32)); }
